@@ -63,6 +63,51 @@ fn main() {
             };
             std::process::exit(runner::run_check(c.as_ref(), tier, seed, runs));
         }
+        "one" => {
+            // debugging aid: generate and execute one run index, with timings
+            // usage: one <ID> <quick|thorough> <run>
+            let c = checks::by_id(&args[2]).expect("unknown check");
+            let tier = if args.get(3).map(|s| s.as_str()) == Some("thorough") { Tier::Thorough } else { Tier::Quick };
+            // <run> or <from>..<to> (prints only the runs that take more than 100 ms)
+            let (from, to) = match args[4].split_once("..") {
+                Some((a, b)) => (a.parse::<u64>().unwrap(), b.parse::<u64>().unwrap()),
+                None => {
+                    let x: u64 = args[4].parse().expect("run index");
+                    (x, x + 1)
+                }
+            };
+            let root = runner::verif_root();
+            let (ctx, _) = runner::make_ctx(&root, c.id(), tier).unwrap();
+            for run in from..to {
+                if std::env::var("VERIF_ONE_TRACE").is_ok() {
+                    eprintln!("run {}", run);
+                }
+                let mut r = rng::Rng::new(rng::run_seed(seed, c.id(), run));
+                let mut st = runner::Stats::default();
+                let t0 = std::time::Instant::now();
+                let t = c.generate(&mut r, tier, &mut st);
+                let tg = t0.elapsed();
+                let chars: usize = t.events.iter().map(|e| match e { trace::Event::FeedStr { s, .. } | trace::Event::Feed { s } | trace::Event::Inert { s, .. } => s.len(), _ => 0 }).sum();
+                let t1 = std::time::Instant::now();
+                let v = c.execute(&t, &mut st, &ctx);
+                let te = t1.elapsed();
+                if to - from == 1 {
+                    if let Ok(path) = std::env::var("VERIF_ONE_DUMP") {
+                        std::fs::write(&path, serde_json::to_string_pretty(&t.to_json()).unwrap()).unwrap();
+                    }
+                    // per-event cost on a plain terminal
+                    let mut vt = obs::build(t.config.cols, t.config.rows, t.config.limit);
+                    for e in &t.events {
+                        let t2 = std::time::Instant::now();
+                        sim::Live::apply_plain(&mut vt, e);
+                        println!("  {:>8.1}ms lines={} {}", t2.elapsed().as_secs_f64() * 1000.0, vt.lines().len(), trace::event_brief(e).chars().take(100).collect::<String>());
+                    }
+                }
+                if to - from == 1 || tg.as_millis() + te.as_millis() > 100 {
+                    println!("run {}: generated in {:?}: config {:?}, {} events, {} bytes; executed in {:?}: {:?}", run, tg, t.config, t.events.len(), chars, te, v);
+                }
+            }
+        }
         "selftest" => {
             // per-run determinism log: one line per (check, run): hash of the generated trace and
             // the verdict; two invocations must print identical logs
